@@ -19,6 +19,7 @@
 //                             run on the Download's FileList. One entry without @path = single-file torrent.
 #include "config.h"
 #include "common/util.h"
+#include "common/supervise.h"
 
 #include <fcntl.h>
 #include <sys/stat.h>
@@ -51,6 +52,18 @@ using torrent::Chunk;
 using torrent::MemoryChunk;
 
 static std::string g_scratch;
+
+// ---- generic access to library containers (ROBUSTNESS rule 2): no private container type is spelled here;
+// elements may be unique_ptr<File>, shared_ptr<File>, File* or File
+template <class T> static auto as_ptr_impl(T& x, int) -> decltype(&*x) { return &*x; }   // pointer-like element
+template <class T> static T* as_ptr_impl(T& x, long) { return &x; }                      // element held by value
+template <class T> static auto as_ptr(T&& x) { return as_ptr_impl(x, 0); }
+template <class C> static auto nth_file(C& c, size_t i) {
+  auto it = std::begin(c);
+  std::advance(it, i);
+  return as_ptr(*it);
+}
+template <class C> static size_t count_of(C& c) { return (size_t)std::distance(std::begin(c), std::end(c)); }
 
 static void rm_rf(const std::string& dir) {
   std::error_code ec;
@@ -108,7 +121,7 @@ static std::string op_chunk(Case& c, bool by_index, const std::vector<std::strin
   std::vector<std::string> ps;
   for (auto& p : *ch) {
     size_t fi = 0;
-    for (auto itr = c.fl->begin(); itr != c.fl->end() && itr->get() != p.file(); ++itr) fi++;
+    for (auto itr = std::begin(*c.fl); itr != std::end(*c.fl) && as_ptr(*itr) != p.file(); ++itr) fi++;
     ps.push_back(std::to_string(p.position()) + ":" + std::to_string(p.size()) + ":" + std::to_string(fi) + ":" +
                  std::to_string(p.file_offset()) + ":" + (p.file() && p.file()->is_padding() ? "p" : "f") + ":" +
                  std::to_string(p.chunk().page_align()));
@@ -206,8 +219,7 @@ static std::string run_case(std::vector<std::string> t, unsigned serial) {
     }
     try {
       c.dl = torrent::download_add(o, 0x5eed);
-    } catch (torrent::input_error& e) { delete o; return std::string("REJECT input ") + e.what();
-    } catch (torrent::bencode_error& e) { delete o; return std::string("REJECT bencode ") + e.what(); }
+    } catch (torrent::input_error& e) { delete o; return std::string("REJECT input ") + e.what(); }
     c.fl = c.dl.file_list();
   } else {
     std::vector<FileList::split_type> sp;
@@ -234,7 +246,7 @@ static std::string run_case(std::vector<std::string> t, unsigned serial) {
   } catch (torrent::local_error& e) { out = std::string("ERR:local open ") + e.what(); }
 
   std::vector<std::string> op;
-  auto file_path = [&](size_t i) { return (*(c.fl->begin() + i))->frozen_path().str(); };
+  auto file_path = [&](size_t i) { return nth_file(*c.fl, i)->frozen_path().str(); };
   auto flush_op = [&]() {
     if (op.empty()) return;
     std::string r;
@@ -265,7 +277,7 @@ static std::string run_case(std::vector<std::string> t, unsigned serial) {
         std::vector<std::string> imgs;
         for (size_t i = 0; i < c.pad.size(); i++) {
           if (i >= c.fl->size_files()) { imgs.push_back("!nofile"); continue; }
-          if (c.pad[i]) { imgs.push_back((*(c.fl->begin() + i))->is_padding() ? "P" : "P!notpadding"); continue; }
+          if (c.pad[i]) { imgs.push_back(nth_file(*c.fl, i)->is_padding() ? "P" : "P!notpadding"); continue; }
           bool ok;
           std::string b = read_file(file_path(i), ok);
           imgs.push_back(ok ? hex(b) : "!missing");
@@ -292,8 +304,8 @@ static std::string run_case(std::vector<std::string> t, unsigned serial) {
               for (uint32_t l : steps) hc.perform(l, true);
               hc.perform(hc.remaining(), true);
             } catch (torrent::internal_error&) { ok = false; }
-            if (ok) { char dg[20]; hc.hash_c(dg); r = "hash=" + hex(dg, 20) + " pos=" + std::to_string(hc.m_position); }
-            else r = "hash=ERR:internal pos=" + std::to_string(hc.m_position);
+            if (ok) { char dg[20]; hc.hash_c(dg); r = "hash=" + hex(dg, 20) + " pos=" + std::to_string(ch->chunk_size() - hc.remaining()); }
+            else r = "hash=ERR:internal pos=" + std::to_string(ch->chunk_size() - hc.remaining());
           }
           node.set_chunk(nullptr);
         }
@@ -315,7 +327,7 @@ static std::string run_case(std::vector<std::string> t, unsigned serial) {
       } else if (k == "P") {
         size_t i = std::stoull(op.at(1));
         uint64_t off = std::stoull(op.at(2)), len = std::stoull(op.at(3));
-        if (i >= c.fl->size_files() || (*(c.fl->begin() + i))->is_padding()) r = "pread=none";
+        if (i >= c.fl->size_files() || nth_file(*c.fl, i)->is_padding()) r = "pread=none";
         else {
           int fd = ::open(file_path(i).c_str(), O_RDONLY);
           if (fd < 0) r = "pread=!missing";
@@ -357,7 +369,7 @@ static std::string run_case(std::vector<std::string> t, unsigned serial) {
   return out;
 }
 
-int main() {
+static void lib_setup() {
   std_setup();
   const char* base = getenv("LTV_SCRATCH");
   std::string b = base ? base : "/verif/build/scratch";
@@ -368,7 +380,58 @@ int main() {
   torrent::initialize_main_thread();
   torrent::initialize();          // Manager + disk/net/tracker threads: download_add needs them
   torrent::manager->file_manager()->set_max_open_files(256);
+}
 
+// ---- constants the theorems' side conditions mention, PROBED from the compiled code (ROBUSTNESS rule 3)
+static bool loader_accepts(int64_t piece_length, unsigned serial) {
+  using torrent::Object;
+  Object* o = new Object(Object::create_map());
+  Object& info = o->insert_key("info", Object::create_map());
+  info.insert_key("name", std::string("probe") + std::to_string(getpid()) + "_" + std::to_string(serial));
+  info.insert_key("piece length", piece_length);
+  info.insert_key("pieces", std::string(20, 'h'));
+  info.insert_key("length", (int64_t)1);
+  try {
+    torrent::Download d = torrent::download_add(o, 0x5eed);
+    torrent::download_remove(d);
+    return true;
+  } catch (torrent::input_error&) { delete o; return false; }
+}
+
+static bool left_bytes_ok(uint64_t total) {
+  // unallocated bitfield, nothing completed: left_bytes() == size_bytes(), refused above the sanity bound
+  FileList fl;
+  fl.initialize(total, uint32_t(1) << 31);
+  try { return fl.left_bytes() == total; } catch (torrent::internal_error&) { return false; }
+}
+
+static void print_params() {
+  unsigned serial = 0;
+  // accepted piece lengths: assume one interval around 2^20 (the loader's documented window); bisect both ends
+  int64_t lo = 0, hi = int64_t(1) << 20;            // lo rejected (0), hi accepted
+  bool mid_ok = loader_accepts(hi, serial++);
+  int64_t pl_min_excl = -1, pl_max = -1;
+  if (mid_ok && !loader_accepts(0, serial++)) {
+    while (hi - lo > 1) { int64_t m = lo + (hi - lo) / 2; if (loader_accepts(m, serial++)) hi = m; else lo = m; }
+    pl_min_excl = lo;
+    int64_t a = int64_t(1) << 20, b = int64_t(1) << 40;   // a accepted, b rejected?
+    if (!loader_accepts(b, serial++)) {
+      while (b - a > 1) { int64_t m = a + (b - a) / 2; if (loader_accepts(m, serial++)) a = m; else b = m; }
+      pl_max = a;
+    }
+  }
+  int left_shift = -1;
+  for (int sft = 40; sft <= 62; sft++)
+    if (left_bytes_ok(uint64_t(1) << sft) && !left_bytes_ok((uint64_t(1) << sft) + 1)) left_shift = sft;
+  if (left_shift < 0 && left_bytes_ok((uint64_t(1) << 62) + 1)) left_shift = 63;      // no bound below 2^62
+  int pad_shift = -1;
+  for (int i = 0; i < 31; i++) if (File::flag_attr_padding == (1 << i)) pad_shift = i;
+  std::cout << "PARAMS left_shift=" << left_shift << " pl_min_excl=" << pl_min_excl << " pl_max=" << pl_max
+            << " pad_shift=" << pad_shift << " page=" << MemoryChunk::page_size() << "\n";
+}
+
+static int worker_main() {
+  lib_setup();
   std::string line;
   unsigned serial = 0;
   while (std::getline(std::cin, line)) {
@@ -379,8 +442,21 @@ int main() {
     } catch (torrent::internal_error& e) { std::cout << "ERR:internal! " << e.what() << "\n";
     } catch (torrent::local_error& e) { std::cout << "ERR:local " << e.what() << "\n";
     } catch (std::exception& e) { std::cout << "ERR:other " << e.what() << "\n"; }
+    std::cout.flush();
   }
-  std::cout.flush();
   rm_rf(g_scratch);
   _exit(0);
+}
+
+// supervisor (common/supervise.h): one case at a time to a worker, 30 s wall watchdog per case
+// (ROBUSTNESS rule 5): a hanging case is answered "HANG ..." and the run continues with a fresh worker
+int main(int argc, char** argv) {
+  if (argc > 1 && std::string(argv[1]) == "--params") {
+    lib_setup();
+    try { print_params(); } catch (std::exception& e) { std::cout << "PARAMS error " << e.what() << "\n"; }
+    std::cout.flush();
+    rm_rf(g_scratch);
+    _exit(0);
+  }
+  return ltv::supervise(argc, argv, worker_main);
 }
